@@ -204,7 +204,8 @@ func c20Dial(c *Ctx) {
 			if !timeout {
 				want = "" // zero time
 			}
-			if len(sd) != 2 || !strings.HasPrefix(js[strings.Index(js, "dial"):], "dial,SetDeadline,Upgrade,SetDeadline") {
+			noClose := strings.ReplaceAll(js[strings.Index(js, "dial"):], ",Close", "")
+			if len(sd) != 2 || !strings.HasPrefix(noClose, "dial,SetDeadline,Upgrade,SetDeadline") {
 				problems = append(problems, "background context: deadline must be set before and cleared after the handshake on every exit: "+js+" "+desc)
 			} else {
 				if timeout && fold.Show(sd[0].Args[0]) != want {
